@@ -1,5 +1,490 @@
-//! C21 harness (stub: not implemented yet).
+//! C21 — textual identifiers: Display / FromStr of `PublicKey`, `Did`, `RepoId`, `Alias`, `UserAgent`.
+//!
+//! Cases (the same tokens the Lean driver reads, see `lean/HeartwoodModel/Driver/C21.lean`):
+//!
+//! * `pk <hex32>` / `did <hex32>` / `rid <hex20>` — print the value with `Display`, parse the text with
+//!   `FromStr`. Output `<text> <1|0>`.
+//! * `pkparse <strhex> <g>` / `didparse …` / `ridparse …` — `FromStr` on an arbitrary string. `g` is the graph
+//!   of `multibase::decode` (for the bases the model treats as opaque): `<strhex>=<n|b<hex>>,…` or `-`; it is
+//!   checked here against the real `multibase::decode`. Output `ok <valuehex> <canonical text>` | `err`.
+//! * `alias <strhex>` / `ua <strhex>` — `Alias::from_str` / `UserAgent::from_str`. Output `ok` | `err`.
+//! * `cls <from>` — 256 code points from `from`: `s` ×3 for a non-character, else `0/1` for the one-character
+//!   alias, the user agent `/<c>:1/`, the user agent `/a:<c>/` (exhaustive check of the character classes).
+//!
+//! Every call runs under `catch`: a panic is the outcome `panic` and an oracle violation.
+
+use std::str::FromStr;
+
+use radicle::crypto::PublicKey;
+use radicle::git::Oid;
+use radicle::identity::{Did, RepoId};
+use radicle::node::{Alias, UserAgent};
+use verif_common::*;
+
+fn hex_in(bs: &[u8]) -> String {
+    if bs.is_empty() { String::new() } else { hex(bs) }
+}
+
+fn unhex_in(s: &str) -> Option<Vec<u8>> {
+    if s.is_empty() { Some(vec![]) } else if s == "-" { None } else { unhex(s) }
+}
+
+fn pk_bytes(k: &PublicKey) -> Vec<u8> {
+    let b: &[u8] = k.as_ref();
+    b.to_vec()
+}
+
+fn string_of(hexs: &str) -> Option<String> {
+    String::from_utf8(unhex(hexs)?).ok()
+}
+
+/// print → parse for a value; `canon` is the prefix every printed text must have.
+fn run_print<T: std::fmt::Display + FromStr + PartialEq>(v: T, canon: &str, what: &str) -> Outcome {
+    match catch(|| {
+        let t = v.to_string();
+        let back = T::from_str(&t).ok();
+        (t, back)
+    }) {
+        Err(m) => Outcome::new("panic").violation("panic", format!("{what}: print/parse panicked: {m}")),
+        Ok((t, back)) => {
+            let same = back.as_ref() == Some(&v);
+            let mut o = Outcome::new(format!("{t} {}", same as u8)).tag(format!("{what}-print"));
+            if !same {
+                o = o.violation(format!("{what}-roundtrip-differs"), format!("parse(print(v)) != v for text {t}"));
+            }
+            if !t.starts_with(canon) {
+                o = o.violation("print-not-canonical", format!("{what}: printed text {t} does not start with {canon}"));
+            }
+            o
+        }
+    }
+}
+
+fn check_graph(g: &str) -> bool {
+    if g == "-" {
+        return true;
+    }
+    for e in g.split(',') {
+        let Some((k, v)) = e.split_once('=') else { return false };
+        let Some(k) = unhex_in(k).and_then(|b| String::from_utf8(b).ok()) else { return false };
+        let real = multibase::decode(&k).ok().map(|(_, b)| b);
+        let claimed = if v == "n" {
+            None
+        } else if let Some(h) = v.strip_prefix('b') {
+            match unhex_in(h) {
+                Some(b) => Some(b),
+                None => return false,
+            }
+        } else {
+            return false;
+        };
+        if real != claimed {
+            return false;
+        }
+    }
+    true
+}
+
+/// parse an arbitrary string; on success print, re-parse, compare.
+fn run_parse<T: std::fmt::Display + FromStr + PartialEq>(s: &str, g: &str, canon: &str, what: &str, bytes: impl Fn(&T) -> Vec<u8>) -> Outcome {
+    if !check_graph(g) {
+        return Outcome::new("bad-case").trivial();
+    }
+    match catch(|| T::from_str(s).ok().map(|v| {
+        let t = v.to_string();
+        let back = T::from_str(&t).ok();
+        (v, t, back)
+    })) {
+        Err(m) => Outcome::new("panic").violation("panic", format!("{what}: from_str panicked on {s:?}: {m}")),
+        Ok(None) => Outcome::new("err").tag(format!("{what}-parse-err")),
+        Ok(Some((v, t, back))) => {
+            let mut o = Outcome::new(format!("ok {} {t}", hex(&bytes(&v)))).tag(format!("{what}-parse-ok"));
+            if back.as_ref() != Some(&v) {
+                o = o.violation("reprint-does-not-parse-back", format!("{what}: parse({s:?}) prints as {t}, which does not parse to the same value"));
+            }
+            if !t.starts_with(canon) {
+                o = o.violation("print-not-canonical", format!("{what}: printed text {t} does not start with {canon}"));
+            }
+            if s.starts_with(canon) {
+                if t != s {
+                    o = o.violation("canonical-text-not-unique", format!("{what}: {s:?} is in canonical form but prints as {t}"));
+                }
+                o = o.tag(format!("{what}-parse-ok-canonical-input"));
+            } else {
+                o = o.tag(format!("{what}-parse-ok-other-form"));
+            }
+            o
+        }
+    }
+}
+
+fn run_validated<T: std::fmt::Display + FromStr + PartialEq>(s: &str, what: &str) -> Outcome {
+    match catch(|| T::from_str(s).ok().map(|v| {
+        let t = v.to_string();
+        let back = T::from_str(&t).ok();
+        (v, t, back)
+    })) {
+        Err(m) => Outcome::new("panic").violation("panic", format!("{what}: from_str panicked on {s:?}: {m}")),
+        Ok(None) => Outcome::new("err").tag(format!("{what}-err")),
+        Ok(Some((v, t, back))) => {
+            let mut o = Outcome::new("ok").tag(format!("{what}-ok"));
+            if t != s {
+                o = o.violation(format!("{what}-print-differs"), format!("parse({s:?}) prints as {t:?}"));
+            }
+            if back.as_ref() != Some(&v) {
+                o = o.violation(format!("{what}-roundtrip-differs"), format!("print(parse({s:?})) does not parse back to the same value"));
+            }
+            o
+        }
+    }
+}
+
+fn run_cls(from: u32) -> Outcome {
+    let mut out = String::new();
+    let mut viol = None;
+    for cp in from..from + 256 {
+        match char::from_u32(cp) {
+            None => out.push_str("sss"),
+            Some(c) => {
+                for s in [c.to_string(), format!("/{c}:1/"), format!("/a:{c}/")].iter().enumerate() {
+                    let r = catch(|| if s.0 == 0 { Alias::from_str(s.1).is_ok() } else { UserAgent::from_str(s.1).is_ok() });
+                    match r {
+                        Ok(b) => out.push(if b { '1' } else { '0' }),
+                        Err(m) => {
+                            out.push('P');
+                            viol = Some(format!("from_str panicked on {:?}: {m}", s.1));
+                        }
+                    }
+                }
+            }
+        }
+    }
+    let mut o = Outcome::new(out).tag("cls");
+    if let Some(m) = viol {
+        o = o.violation("panic", m);
+    }
+    o
+}
+
+fn run_case(input: &str) -> Outcome {
+    let bad = || Outcome::new("bad-case").trivial();
+    let t: Vec<&str> = input.split(' ').collect();
+    match t.as_slice() {
+        ["pk", k] | ["did", k] => {
+            let Some(k) = unhex(k) else { return bad() };
+            let Ok(k) = <[u8; 32]>::try_from(k.as_slice()) else { return bad() };
+            let key = PublicKey::from(k);
+            if t[0] == "pk" { run_print(key, "z", "pk") } else { run_print(Did::from(key), "did:key:z", "did") }
+        }
+        ["rid", o] => {
+            let Some(o) = unhex(o) else { return bad() };
+            if o.len() != 20 {
+                return bad();
+            }
+            let Ok(oid) = Oid::try_from(o.as_slice()) else { return bad() };
+            run_print(RepoId::from(oid), "rad:z", "rid")
+        }
+        ["pkparse", s, g] => {
+            let Some(s) = string_of(s) else { return bad() };
+            run_parse::<PublicKey>(&s, g, "z", "pk", pk_bytes)
+        }
+        ["didparse", s, g] => {
+            let Some(s) = string_of(s) else { return bad() };
+            run_parse::<Did>(&s, g, "did:key:z", "did", |d| pk_bytes(d))
+        }
+        ["ridparse", s, g] => {
+            let Some(s) = string_of(s) else { return bad() };
+            run_parse::<RepoId>(&s, g, "rad:z", "rid", |r| { let b: &[u8] = (**r).as_ref(); b.to_vec() })
+        }
+        ["alias", s] => {
+            let Some(s) = string_of(s) else { return bad() };
+            let o = run_validated::<Alias>(&s, "alias");
+            let n = s.len();
+            if (31..=33).contains(&n) { o.tag(format!("alias-len-{n}")) } else { o }
+        }
+        ["ua", s] => {
+            let Some(s) = string_of(s) else { return bad() };
+            let o = run_validated::<UserAgent>(&s, "ua");
+            let n = s.len();
+            if (63..=65).contains(&n) { o.tag(format!("ua-len-{n}")) } else { o }
+        }
+        ["cls", f] => {
+            let Ok(f) = f.parse::<u32>() else { return bad() };
+            if f > 0x110000 {
+                return bad();
+            }
+            run_cls(f)
+        }
+        _ => bad(),
+    }
+}
+
+// ---------------------------------------------------------------------------------------------
+// generation
+
+fn gen_value(rng: &mut Rng, n: usize) -> Vec<u8> {
+    let mut v = rng.bytes(n);
+    match rng.below(12) {
+        0 => v = vec![0; n],
+        1 => v = vec![0xff; n],
+        2 => {
+            // leading zero bytes
+            let z = rng.range(1, n as u64 - 1) as usize;
+            v[..z].fill(0);
+        }
+        3 => {
+            v = vec![0; n];
+            v[n - 1] = rng.range(1, 255) as u8;
+        }
+        4 => v[0] = 0,
+        5 => v[0] = 1,
+        _ => {}
+    }
+    v
+}
+
+const BASES: &[multibase::Base] = &[
+    multibase::Base::Base58Btc,
+    multibase::Base::Base58Flickr,
+    multibase::Base::Base16Lower,
+    multibase::Base::Base16Upper,
+    multibase::Base::Base32Lower,
+    multibase::Base::Base32Z,
+    multibase::Base::Base36Lower,
+    multibase::Base::Base64,
+    multibase::Base::Base64UrlPad,
+    multibase::Base::Base10,
+    multibase::Base::Base2,
+    multibase::Base::Base8,
+];
+
+const ODD: &[&str] = &["0", "I", "O", "l", " ", "é", "z", "1", "Z", "\u{0}", "日", "/", ":", "=", "+"];
+
+fn mutate_str(rng: &mut Rng, s: &str) -> String {
+    let mut cs: Vec<char> = s.chars().collect();
+    match rng.below(8) {
+        0 if !cs.is_empty() => {
+            let i = rng.below(cs.len() as u64) as usize;
+            cs.remove(i);
+        }
+        1 => {
+            let i = rng.below(cs.len() as u64 + 1) as usize;
+            for (k, c) in rng.pick(ODD).chars().enumerate() {
+                cs.insert(i + k, c);
+            }
+        }
+        2 if !cs.is_empty() => {
+            let i = rng.below(cs.len() as u64) as usize;
+            cs[i] = rng.pick(ODD).chars().next().unwrap();
+        }
+        3 => cs.truncate(rng.below(cs.len() as u64 + 1) as usize),
+        4 if !cs.is_empty() => {
+            // another base-58 character at one position
+            let i = rng.below(cs.len() as u64) as usize;
+            cs[i] = *rng.pick(&['2', '9', 'A', 'H', 'J', 'N', 'P', 'Z', 'a', 'k', 'm', 'z']);
+        }
+        5 => {
+            let k = rng.range(1, 3);
+            cs = cs.into_iter().skip(k as usize).collect();
+        }
+        6 if cs.len() > 2 => {
+            let i = rng.below(cs.len() as u64 - 1) as usize;
+            cs.swap(i, i + 1);
+        }
+        _ => cs.extend(rng.pick(ODD).chars()),
+    }
+    cs.into_iter().collect()
+}
+
+/// The graph of `multibase::decode` on the strings the model may hand to it.
+fn graph(cands: &[&str]) -> String {
+    let mut es: Vec<String> = vec![];
+    for c in cands {
+        if c.is_empty() || c.starts_with('z') {
+            continue;
+        }
+        let e = match multibase::decode(c) {
+            Ok((_, b)) => format!("{}=b{}", hex_in(c.as_bytes()), hex_in(&b)),
+            Err(_) => format!("{}=n", hex_in(c.as_bytes())),
+        };
+        if !es.contains(&e) {
+            es.push(e);
+        }
+    }
+    if es.is_empty() { "-".into() } else { es.join(",") }
+}
+
+fn parse_case(kind: &str, s: &str) -> String {
+    let cands: Vec<&str> = vec![s, s.strip_prefix("did:key:").unwrap_or(s), s.strip_prefix("rad:").unwrap_or(s)];
+    format!("{kind} {} {}", hex(s.as_bytes()), graph(&cands))
+}
+
+fn gen_parse(rng: &mut Rng) -> String {
+    let which = rng.below(3); // 0 pk, 1 did, 2 rid
+    let n = if which == 2 { 20 } else { 32 };
+    // payload bytes: right / wrong multicodec / wrong length
+    let mut val = gen_value(rng, n);
+    match rng.below(30) {
+        0 => {
+            val.pop();
+        }
+        1 => val.push(rng.next() as u8),
+        2 => val.clear(),
+        _ => {}
+    }
+    let mut payload = vec![];
+    if which != 2 {
+        match rng.below(30) {
+            0 => payload.extend([0xec, 0x01]),
+            1 => payload.extend([0xed, 0x02]),
+            2 => payload.extend([0xed]),
+            3 => {}
+            _ => payload.extend([0xed, 0x01]),
+        }
+    }
+    payload.extend(&val);
+    let base = if rng.chance(2, 3) { multibase::Base::Base58Btc } else { *rng.pick(BASES) };
+    let mut s = multibase::encode(base, &payload);
+    match (which, rng.below(24)) {
+        (1, 0) => {}                                   // did without prefix
+        (1, 1) => s = format!("did:key{s}"),
+        (1, 2) => s = format!("DID:KEY:{s}"),
+        (1, 3) => s = format!("did:key:did:key:{s}"),
+        (1, _) => s = format!("did:key:{s}"),
+        (2, 0) | (2, 1) => {}                          // rid without prefix (accepted)
+        (2, 2) => s = format!("rad:rad:{s}"),
+        (2, 3) => s = format!("RAD:{s}"),
+        (2, _) => s = format!("rad:{s}"),
+        (_, 0) => s = format!("did:key:{s}"),          // pk with a did prefix
+        (_, 1) => s = format!("rad:{s}"),
+        _ => {}
+    }
+    for _ in 0..(if rng.chance(1, 7) { rng.range(1, 2) } else { 0 }) {
+        s = mutate_str(rng, &s);
+    }
+    if rng.chance(1, 40) {
+        s = (*rng.pick(&["", "z", "did:key:", "rad:", "rad:z", "did:key:z", "é", "\u{0}", "f", "z1", "z11111111111111111111", "m", "🦀z"])).to_string();
+    }
+    if rng.chance(1, 40) {
+        let n = rng.below(12);
+        s = (0..n).map(|_| char::from_u32(rng.range(0x20, 0x2ff) as u32).unwrap_or('?')).collect();
+    }
+    parse_case(["pkparse", "didparse", "ridparse"][which as usize], &s)
+}
+
+const ALIAS_CHARS: &[char] = &['a', 'Z', '0', '-', '_', '.', '$', 'é', '©', 'ß', '日', '本', '🦀', '\u{10348}', '~', '!', '/', ':'];
+const ALIAS_BAD: &[char] = &[' ', '\n', '\t', '\0', '\u{7f}', '\u{85}', '\u{a0}', '\u{9f}', '\u{80}', '\u{1680}', '\u{2003}', '\u{2028}', '\u{3000}', '\u{200b}', '\u{feff}', '\u{ad}'];
+
+fn gen_alias(rng: &mut Rng) -> String {
+    // target byte length around the limit half of the time
+    let target = if rng.bool() { rng.range(28, 36) } else { rng.below(40) } as usize;
+    let mut s = String::new();
+    loop {
+        let c = if rng.chance(1, 3) { *rng.pick(ALIAS_CHARS) } else { (b'a' + rng.below(26) as u8) as char };
+        if s.len() + c.len_utf8() > target {
+            break;
+        }
+        s.push(c);
+    }
+    // fill up with ASCII to hit the target exactly when possible
+    while s.len() < target && rng.chance(3, 4) {
+        s.push('x');
+    }
+    if rng.chance(1, 5) {
+        let c = *rng.pick(ALIAS_BAD);
+        let mut cs: Vec<char> = s.chars().collect();
+        let i = rng.below(cs.len() as u64 + 1) as usize;
+        cs.insert(i, c);
+        s = cs.into_iter().collect();
+    }
+    s
+}
+
+fn gen_ua(rng: &mut Rng) -> String {
+    let nseg = rng.range(1, 4);
+    let word = |rng: &mut Rng, max: u64| -> String {
+        let n = rng.range(1, max);
+        (0..n).map(|_| *rng.pick(&['r', 'a', 'd', '1', '.', '-', '_', '+', '~', '!', 'Z'])).collect()
+    };
+    let mut segs: Vec<String> = vec![];
+    for _ in 0..nseg {
+        let seg = match rng.below(40) {
+            0..=7 | 16..=30 => format!("{}:{}", word(rng, 10), word(rng, 10)),
+            8..=10 | 31..=39 => word(rng, 12),
+            11 => format!(":{}", word(rng, 5)),                 // empty client
+            12 => format!("{}:", word(rng, 5)),                 // empty version
+            13 => format!("{}:{}", word(rng, 4), rng.pick(&["1 0", "1:0", "é", "1\n", "\u{7f}", "a::b"])), // odd version
+            14 => format!("{}:1", rng.pick(&["a b", "é", "a\tb", "\u{7f}", "日本"])),    // odd client
+            _ => rng.pick(&["", " ", "é", "a b"]).to_string(),  // odd plain segment
+        };
+        segs.push(seg);
+    }
+    let mut s = format!("/{}/", segs.join("/"));
+    // pad to the length limit
+    if rng.chance(1, 3) {
+        let target = rng.range(62, 66) as usize;
+        if s.len() < target {
+            let pad = "x".repeat(target - s.len());
+            s = format!("/{}{}/", pad, &s[1..s.len() - 1]);
+        }
+    }
+    match rng.below(40) {
+        0 if !s.is_empty() => {
+            s.remove(0);
+        }
+        1 => {
+            s.pop();
+        }
+        2 => s = "/".into(),
+        3 => s = "//".into(),
+        4 => s = String::new(),
+        5 => s = format!("{s}/"),
+        6 => s = "/radicle/".into(),
+        _ => {}
+    }
+    s
+}
+
 fn main() {
-    eprintln!("C21: harness not implemented");
-    std::process::exit(3);
+    let mut ctx = Ctx::from_args("C21");
+    if !ctx.run_fixed(run_case) {
+        let mut rng = ctx.rng();
+        // exhaustive: the character classes of Alias / UserAgent over every code point
+        for f in (0..0x110000u32).step_by(256) {
+            let input = format!("cls {f}");
+            let o = run_case(&input);
+            ctx.record(&input, o);
+        }
+        let n = ctx.size(20_000, 400_000);
+        for _ in 0..n {
+            let input = match rng.below(20) {
+                0..=2 => format!("pk {}", hex(&gen_value(&mut rng, 32))),
+                3 => format!("did {}", hex(&gen_value(&mut rng, 32))),
+                4..=5 => format!("rid {}", hex(&gen_value(&mut rng, 20))),
+                6..=12 => gen_parse(&mut rng),
+                13..=15 => format!("alias {}", hex(gen_alias(&mut rng).as_bytes())),
+                _ => format!("ua {}", hex(gen_ua(&mut rng).as_bytes())),
+            };
+            let o = run_case(&input);
+            ctx.record(&input, o);
+        }
+        // observation (not part of the correspondence): `Alias::from(&NodeId)` builds an alias that
+        // `Alias::from_str` rejects (48 bytes > 32)
+        let nid = PublicKey::from([7u8; 32]);
+        let a = Alias::from(&nid);
+        ctx.note(
+            "alias-from-nodeid",
+            format!("Alias::from(&NodeId) = {:?} ({} bytes); Alias::from_str of its text is_ok = {}", a.as_str(), a.as_str().len(), Alias::from_str(a.as_str()).is_ok()),
+        );
+    }
+    ctx.finish(
+        "exhaustive over all code points for the Alias / UserAgent character classes (cls, 256 per case); random and extreme \
+         32-byte keys / DIDs and 20-byte repository ids (all-zero, all-0xff, leading zero bytes) printed and parsed back; parse \
+         stream = canonical texts re-encoded in 12 multibase bases, wrong multicodec prefix, wrong length, missing / doubled / \
+         upper-case `did:key:` and `rad:` prefixes, character-level mutations (non-alphabet characters 0 I O l, multi-byte, \
+         truncation to short inputs, empty), arbitrary strings; aliases and user agents built around their 32 / 64 byte limits \
+         with multi-byte characters, whitespace / control characters, empty client / version, missing slashes. non-trivial = \
+         every case; distinct by input text",
+        false,
+    );
 }
